@@ -1,7 +1,7 @@
 (* Corr.v — comparison of model outputs with the implementation's observables,
    evaluated by vm_compute from generated case files (definitions only). *)
 From Coq Require Import ZArith List Bool Lia.
-From Dendro Require Import Base Tree Grid Criteria Compute Index Prune PruneGhost.
+From Dendro Require Import Base Tree Grid Criteria Compute Index Prune PruneGhost Newick IO.
 Import ListNotations.
 Open Scope Z_scope.
 
@@ -71,3 +71,26 @@ Definition c08_ok (c : c08_case) : bool :=
 Definition c08_repaired_ok (c : c08_case) : bool :=
   let '(shape, a, vals, minv, d0, n0, d1, n1, impl_eq) := c in
   snd (PruneGhost.c08_view shape a vals minv d0 n0 d1 n1).
+
+(* ---- Newick text (C09): (forest as written: ids, height strings, shape; the text) *)
+Definition newick_case : Type := list Newick.ntree * String.string.
+Definition newick_ok (c : newick_case) : bool :=
+  let '(nf, text) := c in
+  String.eqb (Newick.render (Newick.toks_forest nf)) text &&
+  match Newick.parse_text text with
+  | Some nf' => list_eqb Newick.ntree_eqb nf' nf
+  | None => false
+  end.
+
+(* ---- load (C09): (data, label map, Newick tree, expected structures of the loaded dendrogram) *)
+Definition load_case : Type := list (option Z) * list Z * list Newick.ntree * sview_t.
+Definition load_ok (c : load_case) : bool :=
+  let '(vals, labels, nf, es) := c in
+  sview_eqb (sview (map (IO.rebuild vals labels) nf)) es.
+
+(* ---- format choice: (explicit format, extension class, content class, reading?, expected) *)
+Definition fmt_eqb (a b : IO.fmt) : bool :=
+  match a, b with IO.FITS, IO.FITS => true | IO.HDF5, IO.HDF5 => true | _, _ => false end.
+Definition choose_case : Type := option IO.fmt * IO.extension * IO.content * bool * option IO.fmt.
+Definition choose_ok (c : choose_case) : bool :=
+  let '(f, e, ct, r, expected) := c in option_eqb fmt_eqb (IO.choose f e ct r) expected.
